@@ -44,6 +44,16 @@ class KeyPool:
     def rsa(self, bits=1024, e=65537, idx=0):
         return self._get(f"rsa-{bits}-{e}-{idx}", lambda: _gen_rsa(e, bits))
 
+    def rsa_ending(self, last: int, bits=1024, idx=0):
+        """An RSA key (e = 65537) whose modulus - hence its RFC 3110 public key field - ends with the given octet (e.g. 0x0d, 0x09, 0x0b: octets
+        that str/bytes.strip() would take for white space)."""
+        def gen():
+            while True:
+                k = _gen_rsa(65537, bits)
+                if k.public_key().public_numbers().n % 256 == last:
+                    return k
+        return self._get(f"rsa-{bits}-ending-{last:02x}-{idx}", gen)
+
     def ec(self, curve=256, idx=0):
         c = ec.SECP256R1() if curve == 256 else ec.SECP384R1()
         return self._get(f"ec-{curve}-{idx}", lambda: ec.generate_private_key(c))
